@@ -118,7 +118,9 @@ def _split_label(line):
 
 class Unit:
     def __init__(self, template_path, repo='/repo', strip_hints=()):
-        self.strip_hints = set(strip_hints)   # functions whose proof hints are dropped (fallback after a shape change)
+        # functions whose proof hints are dropped (fallback after a shape change): path -> level (1 = ghost text and loop
+        # invariants; 2 = closure annotations as well)
+        self.strip_hints = dict(strip_hints) if isinstance(strip_hints, dict) else {k: 2 for k in strip_hints}
         self.path = template_path
         self.repo = repo
         self.name = None
@@ -461,8 +463,11 @@ class Unit:
     def _emit_fn(self, path, alias, flags, kv, block):
         spec = self._parse_fn_block(block)
         if path in self.strip_hints:
-            spec['loops'] = {}
-            spec['closures'] = {}
+            # keep the structural loop rewrites (R12/R13/desugar/hoist: needed for Verus to accept the text at all), drop the invariants
+            spec['loops'] = {n_: dict(ent, lines=[]) for n_, ent in spec['loops'].items()
+                             if ent.get('index') or ent.get('keys') or ent.get('desugar') or ent.get('hoist')}
+            if self.strip_hints[path] >= 2:
+                spec['closures'] = {}
             spec['hints'] = []
             spec['chains'] = []
             spec['tail'] = None
@@ -595,7 +600,8 @@ class Unit:
         g = self.gen
         if 'noisolation' in flags:
             g.emit('#[verifier::loop_isolation(false)]', dict(tagbase, kind='sig', label=None))
-        if 'nodecreases' in flags:
+        if 'nodecreases' in flags or (path in self.strip_hints and spec['loops']):
+            # (also when the invariants of rewritten `while` loops were dropped with the hints: their decreases clauses went with them)
             # termination of this function's loops is NOT checked (recorded in the trusted base)
             g.emit('#[verifier::exec_allows_no_decreases_clause]', dict(tagbase, kind='sig', label=None))
             self.trusted.append('termination not checked: fn %s (exec_allows_no_decreases_clause)' % path)
@@ -834,6 +840,7 @@ class Unit:
             edits.append((ob, ob, tagged, 'lines'))
         # closures
         cls = sn.closures(0, len(body))
+        annotated = []
         for n_, ann in spec['closures'].items():
             if isinstance(n_, str):
                 callee, _, k_ = n_.partition('#')
@@ -865,6 +872,19 @@ class Unit:
             new += ' { ' + pre + inner + ' }'
             log.append(dict(rule='closure-annotation', before=norm_ws(body[c['start']:c['body_end']]), after=norm_ws(new)))
             edits.append((c['start'], c['body_end'], new, None))
+            annotated.append((c['start'], c['body_end']))
+        # R2 for closures without an annotation: a wildcard parameter `_` gets a fresh name (Verus accepts only variables there)
+        for c in cls:
+            if any(a <= c['start'] < b for a, b in annotated) or not c.get('params'):
+                continue
+            cnt = [0]
+            def fresh(mm):
+                cnt[0] += 1
+                return '_u%d' % cnt[0]
+            newp = re.sub(r'(?<![A-Za-z0-9_])_(?![A-Za-z0-9_])', fresh, c['params'])
+            if newp != c['params']:
+                log.append(dict(rule='R2', before='|%s|' % norm_ws(c['params']), after='|%s|' % norm_ws(newp)))
+                edits.append((c['bar'] + 1, c['params_close'], newp, None))
         # hints
         for h in spec['hints']:
             if h['where'] == 'start':
